@@ -83,3 +83,15 @@ CHECKS["C18"] = {
  "text": "On generated systems (plain and with builders, with non-integer hourly inputs) after edit histories, every object is recomputed alone in random order, random subsets in random orders, the whole chain and system.after_init() again: the calculated observation must not move. Then every value is read, printed and explained, the system exported in both modes and plotted (Agg / plotly html): the physical digest of every input must be unchanged and a last full recomputation must reproduce the same results.",
  "note": TB + "plots that raise on degenerate models (no server, all-zero traffic) are counted, not alarmed; recomputation requests are per object / subset / whole system as in the statement (single update rules are an internal API)",
 }
+CHECKS["C14"] = {
+ "level": "fault_enumeration",
+ "technique": "runtime monitoring: complete enumeration of (class x parameter x invalid kind x context) with an exception/state-unchanged monitor",
+ "text": "Every constructor parameter of every public class is given every kind of invalid value its type admits (wrong dimension incl. zero magnitude, negative, bare number, string object, series for scalar and scalar for series, value outside the declared list, quantity for categorical, wrong-class list element, non-list, wrong-class link, forbidden fixed count) at construction, by assignment on a computed model containing every class, inside a grouped update next to a valid change, and inside the same update as a dated what-if; an exception must be raised and, for the three edit contexts, the full observation (inputs, links, calculated values with object identity, id-level graph) must be unchanged. The space is finite and enumerated completely (~1750 inputs per model); thorough repeats it at later points of edit histories of 4 models.",
+ "note": TB + "'negative' applies to scalar quantity parameters not listed in attributes_that_can_have_negative_values; 'outside the list' to parameters that declare list_values / conditional_list_values (Country.timezone is free-form); known finding F19 (wrong-class links accepted at construction)",
+}
+CHECKS["C15"] = {
+ "level": "fault_enumeration",
+ "technique": "runtime monitoring: fault sequences with real triggers at every raising update function inside edit histories; full-state comparison after each raise, rebuild-from-spec oracle on the edits that follow",
+ "text": "Histories mix ordinary edits with edits (single, grouped, dated what-ifs) built to make recomputation fail at each raising site (capacity, fixed server / storage count, negative storage ledger, failure in the middle of a per-pattern dict update), repeated up to 3 times in a row. After each raise, and after re-assigning the previous value, the observation (values, links, id-level graph) must equal the pre-failure one; the following edits, biased towards the inputs involved, are compared with a fresh build after every edit.",
+ "note": TB + "the raising sites are enumerated (every update function that can raise has a generator of real triggers), systems and positions are sampled; known finding F3 shared with C01",
+}
